@@ -175,8 +175,14 @@ func (t *Table) Format(w io.Writer) error {
 		// target), and then distributing the remaining space
 		// among the narrower ones.
 		spanCols = spanCols[:0]
+		// If every column under this cell is a shrink column,
+		// the cell still has to fit, so let all of them grow.
+		canGrow := false
 		for col := cell.col; col < cell.col+cell.span; col++ {
-			if shrink(col) {
+			canGrow = canGrow || !shrink(col)
+		}
+		for col := cell.col; col < cell.col+cell.span; col++ {
+			if canGrow && shrink(col) {
 				// We can't grow a shrink column, so
 				// account for its space, but don't
 				// add it to the columns to adjust.
